@@ -115,7 +115,7 @@ def genesis : W := { storeT := fun a => if a ≤ 5 then 100 else 0, storeQ := fu
 def queryProgram (kind : String) (q : Int) : List Step :=
   match kind with
   | "bank-balance" => []
-  | "ethcall-view" | "estimate-gas" => [.privateNew, .evmAdd 9 1]
+  | "ethcall-view" | "estimate-gas" | "trace-call" => [.privateNew, .evmAdd 9 1]
   | "ethcall-value-precompile-query" => [.privateNew, .evmAdd 6 (-q), .evmAdd 8 q, .flush]
   | "ethcall-funtoken-sendtobank" => [.privateNew, .evmAdd 6 (-q), .flush, .bankOther 6 q]
   | "ethcall-bank-precompile" => [.privateNew, .flush, .bankAdd 6 (-q), .bankAdd 4 q]
